@@ -1,7 +1,7 @@
 #!/usr/bin/env python3
 """C02 self-test: breaking edits on a scratch copy must be caught (exit 1), harmless edits must still verify (exit 0).
 
-Base tree = /repo + proposed_fixes/C02_*.diff (the state in which ./check C02 exits 0).
+Base tree = /repo HEAD (the state in which ./check C02 exits 0).
 usage: python3 tools/selftest_C02.py [name-substring ...]
 """
 import glob
@@ -85,8 +85,7 @@ def main():
     shutil.rmtree(BASE, ignore_errors=True)
     os.makedirs(BASE)
     shutil.copytree("/repo/sharepoint2text", os.path.join(BASE, "sharepoint2text"))
-    for d in sorted(glob.glob(os.path.join(ROOT, "proposed_fixes", "C02_*.diff"))):
-        subprocess.run(["patch", "-s", "-p1", "-i", d], cwd=BASE, check=True)
+    # (round 1 applied proposed_fixes/C02_*.diff here; they are part of /repo HEAD now, where ./check C02 exits 0)
     os.makedirs(os.path.join(ROOT, "seeded", "C02_selftest"), exist_ok=True)
     bad = 0
     for name, want, edit in EDITS:
